@@ -619,3 +619,160 @@ func aggregateEscapes(al *ssa.Alloc) bool {
 	}
 	return false
 }
+
+func init() {
+	register(&Rule{Name: "STATELESS", Floor: 4, Run: ruleStateless, Fixture: "fixture.keepsTable",
+		Doc: "validation, merging, hashing, subject parsing and the regeneration decision are functions of their arguments (and of the database they are handed): no function they can reach in the module writes a package-level variable, or reads one that anything outside package initialisation writes (the logging package's verbosity excepted) — a result must not depend on which certificates were processed before"})
+}
+
+// globalRoot: the package-level variable whose memory an address or value belongs to.
+func globalRoot(v ssa.Value) *ssa.Global {
+	for i := 0; i < 12 && v != nil; i++ {
+		switch x := v.(type) {
+		case *ssa.Global:
+			return x
+		case *ssa.FieldAddr:
+			v = x.X
+		case *ssa.IndexAddr:
+			v = x.X
+		case *ssa.Field:
+			v = x.X
+		case *ssa.Index:
+			v = x.X
+		case *ssa.Slice:
+			v = x.X
+		case *ssa.UnOp:
+			if x.Op != token.MUL {
+				return nil
+			}
+			v = x.X
+		case *ssa.Lookup:
+			v = x.X
+		case *ssa.ChangeType:
+			v = x.X
+		default:
+			return nil
+		}
+	}
+	return nil
+}
+
+func isInitFunc(fn *ssa.Function) bool {
+	for fn.Parent() != nil {
+		fn = fn.Parent()
+	}
+	return fn.Signature.Recv() == nil && (fn.Name() == "init" || strings.HasPrefix(fn.Name(), "init#"))
+}
+
+// globalWrites lists the package-level variables a function writes (stores, map updates, appends back into them).
+func globalWrites(fn *ssa.Function) map[*ssa.Global]token.Pos {
+	out := map[*ssa.Global]token.Pos{}
+	for _, b := range fn.Blocks {
+		for _, ins := range b.Instrs {
+			switch x := ins.(type) {
+			case *ssa.Store:
+				if g := globalRoot(x.Addr); g != nil {
+					out[g] = x.Pos()
+				}
+			case *ssa.MapUpdate:
+				if g := globalRoot(x.Map); g != nil {
+					out[g] = x.Pos()
+				}
+			case *ssa.Call:
+				if bi, ok := x.Call.Value.(*ssa.Builtin); ok && (bi.Name() == "copy" || bi.Name() == "clear" || bi.Name() == "delete") && len(x.Call.Args) > 0 {
+					if g := globalRoot(x.Call.Args[0]); g != nil {
+						out[g] = x.Pos()
+					}
+				}
+			}
+		}
+	}
+	return out
+}
+
+func ruleStateless(c *Ctx, r *Rep) {
+	var roots []*ssa.Function
+	if c.Mod != modPath {
+		for _, fn := range c.Funcs {
+			if fn.Parent() == nil && !isInitFunc(fn) && fn.Name() == "keepsTable" {
+				roots = append(roots, fn)
+			}
+		}
+	} else {
+		for _, nm := range []struct{ pkg, name string }{
+			{"generator/config", "Validate"},
+			{"generator/config", "Merge"},
+			{"generator/config", "ParseRDNSequence"},
+		} {
+			fn := c.Func(nm.pkg, nm.name)
+			if fn == nil {
+				r.Undecided("anchor:"+nm.name, "", "function not found")
+				continue
+			}
+			roots = append(roots, fn)
+		}
+		if fn := c.Method("generator/config", "CertificateContent", "HashSum"); fn != nil {
+			roots = append(roots, fn)
+		} else {
+			r.Undecided("anchor:HashSum", "", "method not found")
+		}
+		if fn := c.decisionFunc(); fn != nil {
+			roots = append(roots, fn)
+		} else {
+			r.Undecided("anchor:decision-function", "", "not found")
+		}
+	}
+	// package-level variables written after initialisation, anywhere in the module
+	mutable := map[*ssa.Global]string{}
+	for _, fn := range c.Funcs {
+		if isInitFunc(fn) {
+			continue
+		}
+		for g, pos := range globalWrites(fn) {
+			if _, ok := mutable[g]; !ok {
+				mutable[g] = c.FuncKey(fn) + " at " + c.Pos(pos)
+			}
+		}
+	}
+	for _, rt := range roots {
+		fk := c.FuncKey(rt)
+		reach := c.Graph().Reach(rt)
+		var fns []*ssa.Function
+		for f := range reach {
+			fns = append(fns, f)
+		}
+		sort.Slice(fns, func(i, j int) bool { return c.FuncKey(fns[i]) < c.FuncKey(fns[j]) })
+		var bad []string
+		pos := c.FnPos(rt)
+		for _, f := range fns {
+			if !c.InModule(f) || f.Blocks == nil || (f.Pkg != nil && strings.HasSuffix(f.Pkg.Pkg.Path(), "/logging")) {
+				continue
+			}
+			for g, p := range globalWrites(f) {
+				if g.Pkg != nil && strings.HasSuffix(g.Pkg.Pkg.Path(), "/logging") {
+					continue
+				}
+				bad = append(bad, sprintf("%s writes %s (%s)", c.FuncKey(f), g.Name(), c.Pos(p)))
+				pos = c.Pos(p)
+			}
+			for _, b := range f.Blocks {
+				for _, ins := range b.Instrs {
+					ld, ok := ins.(*ssa.UnOp)
+					if !ok || ld.Op != token.MUL {
+						continue
+					}
+					g := globalRoot(ld.X)
+					if g == nil || (g.Pkg != nil && strings.HasSuffix(g.Pkg.Pkg.Path(), "/logging")) {
+						continue
+					}
+					if w, isMut := mutable[g]; isMut {
+						bad = append(bad, sprintf("%s reads %s, which %s writes", c.FuncKey(f), g.Name(), w))
+						pos = c.Pos(ld.Pos())
+					}
+				}
+			}
+		}
+		bad = uniq(bad)
+		r.Check(len(bad) == 0, "no-global-state|"+fk, pos, "no package-level variable written, none read that is written after initialisation (reachable module functions: "+sprintf("%d", len(fns))+")", strings.Join(head(bad, 4), "; "))
+	}
+}
